@@ -188,7 +188,12 @@ class C14(Prop):
     assumptions = (
         'one read event carries at most one message (pipelining is outside the statement); at most one response per read is asserted',
         'after the component fires close(sock) the server component delivers no further reads and fires disconnect(sock)',
-        'which 4xx/5xx is chosen, and whether malformed input is rejected or tolerated, is not asserted',
+        'which 4xx/5xx is chosen is not asserted; whether malformed input is rejected or tolerated is asserted only for the shapes '
+        'the quantifier names and RFC 7230 leaves no room for (plain request line with a non-token method or a version that is not '
+        'HTTP/digits.digits; header line without colon or with a non-token name; Content-Length not 1*DIGIT or conflicting; chunk-size '
+        'not 1*HEXDIG) - lenient separators, blanks between name and colon, unknown transfer codings and anything written with '
+        'backslash escapes are not judged',
+        'a message whose complete header block spells no body framing header has no body: it must be answered, closed or dispatched (stalled)',
         'plain close without a response is accepted only when the FIRST read of a message starts like a TLS/SSL record (0x16 or a byte >= 0x80)',
         'HEAD is not generated (response framing for HEAD is judged by C15)',
     )
